@@ -115,7 +115,10 @@ static int execute(mv_shared_t * sh, int prog, int W, int ndev, const mv_dev_t *
   if (pid == 0) {
     sigset_t e; sigemptyset(&e); sigprocmask(SIG_SETMASK, &e, NULL);
     if (!trace) { int fd = open("/dev/null", O_WRONLY); if (fd >= 0) { dup2(fd, 2); dup2(fd, 1); close(fd); } }
-    struct rlimit rl = { (rlim_t)(timeout + 2), (rlim_t)(timeout + 3) }; setrlimit(RLIMIT_CPU, &rl);
+    /* a hang is judged by CPU time (a native spin outside the hooked wait loops burns it); the wall-clock
+       limit is 12x larger and only catches a child that blocks for real, so an overloaded machine cannot
+       turn a slow execution into a false "hang" */
+    struct rlimit rl = { (rlim_t)(timeout), (rlim_t)(timeout + 1) }; setrlimit(RLIMIT_CPU, &rl);
     struct rlimit core = {0, 0}; setrlimit(RLIMIT_CORE, &core);
     mv_sh = sh;
     mv_reference = C ? C->ref[prog] : NULL;
@@ -125,7 +128,7 @@ static int execute(mv_shared_t * sh, int prog, int W, int ndev, const mv_dev_t *
     _exit(0);
   }
   int status = 0, got = 0;
-  double tend = now() + timeout;
+  double tend = now() + timeout * 12;
   while (!got) {
     pid_t r = waitpid(pid, &status, WNOHANG);
     if (r == pid) { got = 1; break; }
@@ -138,7 +141,7 @@ static int execute(mv_shared_t * sh, int prog, int W, int ndev, const mv_dev_t *
   if (!got) {
     kill(pid, SIGKILL); waitpid(pid, &status, 0);
     sh->verdict = MV_TIMEOUT;
-    snprintf(sh->msg, sizeof sh->msg, "execution did not finish within %.0f s (a worker spins outside the hooked wait loops, or blocks for real)", timeout);
+    snprintf(sh->msg, sizeof sh->msg, "execution did not finish within %.0f s of wall-clock time (a worker blocks for real)", timeout * 12);
     return MV_TIMEOUT;
   }
   if (WIFEXITED(status)) {
@@ -148,6 +151,11 @@ static int execute(mv_shared_t * sh, int prog, int W, int ndev, const mv_dev_t *
     sh->verdict = MV_EXIT;
     snprintf(sh->msg, sizeof sh->msg, "process exited with status %d inside the library (fatal diagnostic)", code);
     return MV_EXIT;
+  }
+  if (WIFSIGNALED(status) && (WTERMSIG(status) == SIGXCPU || WTERMSIG(status) == SIGKILL)) {
+    sh->verdict = MV_TIMEOUT;
+    snprintf(sh->msg, sizeof sh->msg, "execution burned %.0f s of CPU without finishing (a worker spins outside the hooked wait loops)", timeout);
+    return MV_TIMEOUT;
   }
   if (WIFSIGNALED(status)) {
     sh->verdict = MV_CRASH;
